@@ -9,6 +9,7 @@
 //                                       type: d (double values, unsigned index) | l (long values, std::size_t index)
 //                                       mode: v (values) | i (indices)
 //       answer:  R 0: b,d ... | 1: b,d ... | min m        pairs sorted (the interface leaves their order free)
+//       (type d: the value 1000003 is replaced by +infinity on the way in and back on the way out)
 //   RF ...                              as R (tells the oracle to use its fast reduction; for large grids)
 //   ENUM <type> <mode> <rows> <cols> <k> r1 .. rk
 //       every weak order of the rows*cols cells (rank vectors onto {0..m}) that starts with the given ranks, in
@@ -94,9 +95,13 @@ static std::string rect_case(std::string const& type, std::string const& mode, l
   if (rows < 0 || cols < 0 || (long)vals.size() != rows * cols) return "BAD size";
   try {
     if (type == "d") {
+      // the key 1000003 stands for +infinity (a cell that never enters): it reaches the routine as +inf and is printed back as the key
       std::vector<double> v(vals.begin(), vals.end());
-      if (mode == "v") return run_rect<false, double, unsigned>(v, (unsigned)rows, (unsigned)cols);
-      return run_rect<true, double, unsigned>(v, (unsigned)rows, (unsigned)cols);
+      for (auto& x : v) if (x == 1000003.0) x = std::numeric_limits<double>::infinity();
+      std::string r = (mode == "v") ? run_rect<false, double, unsigned>(v, (unsigned)rows, (unsigned)cols)
+                                    : run_rect<true, double, unsigned>(v, (unsigned)rows, (unsigned)cols);
+      for (std::size_t p = r.find("inf"); p != std::string::npos; p = r.find("inf", p)) r.replace(p, 3, "1000003");
+      return r;
     } else {
       std::vector<long> v(vals.begin(), vals.end());
       if (mode == "v") return run_rect<false, long, std::size_t>(v, (std::size_t)rows, (std::size_t)cols);
